@@ -1500,6 +1500,11 @@ func (c *Ctx) ruleWidthDecode(rule string, in func(*ssa.Function) bool) int {
 				if k, isK := ir.ConstInt(ms.Len); isK && k >= need {
 					return
 				}
+				// a length that folds to a constant (binary.Size of a fixed type, a
+				// package-level variable nothing but its initialiser assigns)
+				if a := affineOf(ms.Len, 0); a.isConst() && a.K >= need {
+					return
+				}
 			}
 			// a slice literal
 			if a, isA := root.(*ssa.Alloc); isA {
